@@ -123,12 +123,12 @@ def with_history(p):
     return q
 
 
-def fresh_run(scs, opts=None, timeout=600):
-    """the scenarios, one after the other, in ONE fresh interpreter; list of (trace, extra)"""
+def fresh_run(scs, opts=None, timeout=600, runner="harness.fam:_impl_worker"):
+    """the scenarios, one after the other, in ONE fresh interpreter; list of results of the runner ((trace, extra) by default)"""
     import pickle
     import subprocess
     root = os.path.dirname(os.path.dirname(os.path.abspath(__file__)))
-    p = subprocess.run([sys.executable, "-m", "harness.fresh"], input=pickle.dumps((scs, opts or {}), protocol=2), cwd=root,
+    p = subprocess.run([sys.executable, "-m", "harness.fresh"], input=pickle.dumps((runner, scs, opts or {}), protocol=2), cwd=root,
                        env=core.env_for_repo(), stdout=subprocess.PIPE, stderr=subprocess.PIPE, timeout=timeout)
     if p.returncode != 0:
         return [(None, dict(error=p.stderr.decode("utf-8", "replace")[-800:]))] * len(scs)
